@@ -7,6 +7,7 @@ from ..util import KIND, EPS
 
 PROPERTY = "C07"
 PYTEST_PREFIX = "C07/"
+TECHNIQUE = "runtime monitoring: contract monitor (conservation relation over the outputs of one call)"
 LEVEL = "exploration"
 RULE = ("Contract on every real rate() return: S = sum_i (sum_j dmu_ij)/(sum_j sigma_ij^2+tau^2) computed from the "
         "pre-call snapshot and the returned values must satisfy |S| <= sum_ij (1e-9|dmu_ij| + 4eps(|mu_prior|+|mu_post|))"
